@@ -1,5 +1,43 @@
 import Glas.Model.TreeRanges
-/-! C20: theorems being merged (placeholder) -/
+import Glas.Model.SyntaxCmd
+import Glas.Props.C01
+import Glas.Lemmas.TreeRangesLemmas
+/-!
+# C20 — every reported range lies inside the document it refers to (the syntax-tree part)
+
+Every range the analysis reports is (checked on the implementation by the `sweep` monitor) the
+range of a node or token of the file's syntax tree, or a documented empty range.  These theorems
+show that such ranges are within the text and on character boundaries, for every text.
+-/
 namespace Glas.Props.C20
-theorem placeholder : (1 : Nat) = 1 := rfl
+open Glas.Tree Glas.Dsl Glas.SyntaxCmd
+
+/-- every node/token range of a tree lies inside the tree's extent and is well-formed -/
+theorem ranges_in_bounds (t : Tree) (off : Nat) :
+    ∀ r ∈ t.ranges off, off ≤ r.1 ∧ r.1 ≤ r.2 ∧ r.2 ≤ off + t.len :=
+  Glas.Lemmas.TreeRanges.ranges_bounds t off
+
+/-- both ends of every node/token range are character boundaries of the text formed by the leaves -/
+theorem ranges_on_char_boundaries (t : Tree) :
+    ∀ r ∈ t.ranges 0, r.1 ∈ charBoundaries ((t.leaves.map (fun x => x.2)).flatten) 0 ∧
+                       r.2 ∈ charBoundaries ((t.leaves.map (fun x => x.2)).flatten) 0 :=
+  Glas.Lemmas.TreeRanges.ranges_cb t 0
+
+/-- **C20 (tree part)**: whenever the model of `parse_module` returns a tree for a text `s`, every
+node and token range is inside `[0, length s]`, starts and ends on character boundaries of `s` -/
+theorem C20_tree_ranges (n : Nat) (s : List Char) (t : Tree) (σ : St) (raw : List RawTok)
+    (h : parseModel n s = .ok (t, σ, raw)) :
+    ∀ r ∈ t.ranges 0, r.1 ≤ r.2 ∧ r.2 ≤ Tree.u8len s ∧
+      r.1 ∈ charBoundaries s 0 ∧ r.2 ∈ charBoundaries s 0 := by
+  intro r hr
+  have hflat : (t.leaves.map (fun x => x.2)).flatten = s :=
+    (Glas.Props.C01.C01_lossless n s t σ raw h).2.2.1
+  have hlen : t.len = Tree.u8len s := by
+    rw [Glas.Lemmas.TreeRanges.len_eq t]; exact congrArg Tree.u8len hflat
+  have hb := ranges_in_bounds t 0 r hr
+  have hc := ranges_on_char_boundaries t r hr
+  rw [hflat] at hc
+  rw [hlen] at hb
+  exact ⟨hb.2.1, by omega, hc.1, hc.2⟩
+
 end Glas.Props.C20
